@@ -146,6 +146,7 @@ func propC02(w *World, r *Report) {
 	RunLoopControls(r)
 	RunAllocControls(r)
 	RunNilControls(r)
+	r.Conds["elems-below:cff.readFDSelect"] = condElemsBelowLastParam(w, br, "cff.readFDSelect")
 	r.Conds["monotone-stores:cff.readIndex"] = condMonotoneStores(w, br, "cff.readIndex", false)
 	r.Conds["monotone-stores:glyf.decodeLoca"] = condMonotoneStores(w, br, "glyf.decodeLoca", true)
 	r.Conds["charstring-budget"] = condGlobalBudget(w, "(*cff.decodeInfo).decodeCharString")
